@@ -2,6 +2,8 @@
 use crate::common::*;
 use crate::mock::{Model, Op};
 use crate::sclient::{self, Act, Cfg as CCfg, Dl, Order, YEAR_MS};
+use crate::e2e::{self, Cfg as ECfg, Tk};
+use crate::misc::{self, HasherKind, L};
 use crate::sserver::{self, Cfg as SCfg, Mode, SAct, SDl};
 use serde_json::{json, Value};
 use std::collections::BTreeMap;
@@ -48,10 +50,18 @@ pub fn run(ctx: &RunCtx) -> i32 {
         return 0;
     }
     match ctx.prop {
-        "C01" | "C02" | "C03" | "C05" | "C18" => family_prop(ctx, true, false),
-        "C04" | "C06" | "C08" | "C12" => family_prop(ctx, false, true),
-        "C10" | "C11" | "C14" => family_prop(ctx, true, true),
+        "C01" | "C03" | "C05" => family_prop(ctx, &["client"]),
+        "C02" => family_prop(ctx, &["client", "client", "e2e", "server"]),
+        "C18" => family_prop(ctx, &["client", "client", "e2e"]),
+        "C06" | "C08" | "C12" => family_prop(ctx, &["server"]),
+        "C04" => family_prop(ctx, &["server", "server", "e2e"]),
+        "C07" => family_prop(ctx, &["e2e"]),
+        "C10" | "C14" => family_prop(ctx, &["client", "server"]),
+        "C11" => family_prop(ctx, &["client", "server", "client", "server", "e2e"]),
         "C09" => c09(ctx),
+        "C13" => c13(ctx),
+        "C19" => c19(ctx),
+        "C20" => c20(ctx),
         p => {
             eprintln!("unknown property {p}");
             2
@@ -92,6 +102,12 @@ pub fn replay(prop: &'static str, path: &str) -> i32 {
                 }
             }
             sserver::run(&cfg)
+        }
+        "S-e2e" => {
+            let idx = sc["index"].as_u64().unwrap_or(0);
+            let base_seed = sc["base_seed"].as_u64().unwrap_or(0);
+            let p = sc["for_property"].as_str().unwrap_or(prop).to_string();
+            e2e::run(&e2e_cfg(&p, idx, base_seed))
         }
         _ => {
             println!("unknown family");
@@ -551,27 +567,39 @@ fn tag(o: &mut Outcome, i: u64, seed: u64, prop: &str, tier: &str) {
     }
 }
 
-/// Properties decided on the S-client and/or S-server families.
-fn family_prop(ctx: &RunCtx, client: bool, server: bool) -> i32 {
+/// Properties decided on the S-client / S-server / S-e2e families (round-robin over `fams`).
+fn family_prop(ctx: &RunCtx, fams: &[&str]) -> i32 {
     let prop = ctx.prop;
     let n = ctx.n(40_000, 2_000_000);
     let thorough = ctx.thorough();
     let seed = ctx.seed;
     let tier = ctx.tier.clone();
+    let client = fams.contains(&"client");
+    let server = fams.contains(&"server");
+    let e2e = fams.contains(&"e2e");
+    let k = fams.len() as u64;
     let agg = run_parallel(prop, n, &ctx.known, |i| {
-        let use_client = client && (!server || i % 2 == 0);
-        if use_client {
-            let idx = if server { i / 2 } else { i };
-            let cfg = client_cfg(prop, idx, seed, thorough);
-            let mut o = sclient::run(&cfg);
-            tag(&mut o, idx, seed, prop, &tier);
-            o
-        } else {
-            let idx = if client { i / 2 } else { i };
-            let cfg = server_cfg(prop, idx, seed, thorough);
-            let mut o = sserver::run(&cfg);
-            tag(&mut o, idx, seed, prop, &tier);
-            o
+        let fam = fams[(i % k) as usize];
+        let idx = i / k;
+        match fam {
+            "client" => {
+                let cfg = client_cfg(prop, idx, seed, thorough);
+                let mut o = sclient::run(&cfg);
+                tag(&mut o, idx, seed, prop, &tier);
+                o
+            }
+            "server" => {
+                let cfg = server_cfg(prop, idx, seed, thorough);
+                let mut o = sserver::run(&cfg);
+                tag(&mut o, idx, seed, prop, &tier);
+                o
+            }
+            _ => {
+                let cfg = e2e_cfg(prop, idx, seed);
+                let mut o = e2e::run(&cfg);
+                tag(&mut o, idx, seed, prop, &tier);
+                o
+            }
         }
     });
     let mut req = vec![];
@@ -581,11 +609,10 @@ fn family_prop(ctx: &RunCtx, client: bool, server: bool) -> i32 {
     if server {
         req.extend(server_required_cells(prop));
     }
-    let fams = match (client, server) {
-        (true, true) => "S-client and S-server",
-        (true, false) => "S-client",
-        _ => "S-server",
-    };
+    if e2e {
+        req.extend(e2e_required_cells(prop));
+    }
+    let fams = fams.iter().map(|f| format!("S-{f}")).collect::<std::collections::BTreeSet<_>>().into_iter().collect::<Vec<_>>().join(" + ");
     let rep = Report {
         level: "exploration",
         rule: format!(
@@ -736,11 +763,29 @@ fn server_directed(k: u64, seed: u64) -> Option<SCfg> {
             c.deadlines = vec![SDl::Ms(3), SDl::Ms(50), SDl::Ms(10_000)];
             c.label = "C11-long-run";
         }
+        14 => {
+            // C08: a duplicate with a shorter deadline must be ignored, deadline included
+            c.err_pct = 0;
+            c.auto_gates = false;
+            c.script = vec![
+                SAct::Fresh(long),
+                SAct::RunIdle,
+                SAct::DupNthD(0, SDl::Ms(20)),
+                SAct::RunIdle,
+                SAct::Advance(30),
+                SAct::RunIdle,
+                SAct::DupNth(0),
+                SAct::RunIdle,
+                SAct::OpenAllGates,
+                SAct::RunIdle,
+            ];
+            c.label = "C08-duplicate-with-shorter-deadline";
+        }
         _ => return None,
     }
     Some(c)
 }
-const N_SERVER_DIRECTED: u64 = 14;
+const N_SERVER_DIRECTED: u64 = 15;
 
 pub fn server_cfg(prop: &str, i: u64, base_seed: u64, thorough: bool) -> SCfg {
     let seed = mix(base_seed, i.wrapping_mul(0x51ED) ^ 0x5E11);
@@ -958,4 +1003,268 @@ pub fn op_counter_name(op: Op) -> &'static str {
         Op::Next => "op.poll_next",
         Op::Eof => "op.end_of_stream",
     }
+}
+
+// ------------------------------------------------------------------------------------------
+// C13: per-key channel limit (bounded-exhaustive + random)
+
+const C13_ALPHA: [L; 5] = [L::Arrive(0), L::Arrive(1), L::CloseOldest(0), L::CloseOldest(1), L::Poll];
+
+fn c13_decode(mut idx: u64, maxlen: u32) -> Option<(u32, Vec<L>)> {
+    // index space: for n in {1,2}, for len in 1..=maxlen, all 5^len sequences; each followed by a final Poll
+    for n in [1u32, 2] {
+        for len in 1..=maxlen {
+            let count = 5u64.pow(len);
+            if idx < count {
+                let mut ops = vec![];
+                let mut c = idx;
+                for _ in 0..len {
+                    ops.push(C13_ALPHA[(c % 5) as usize]);
+                    c /= 5;
+                }
+                ops.push(L::Poll);
+                return Some((n, ops));
+            }
+            idx -= count;
+        }
+    }
+    None
+}
+
+fn c13(ctx: &RunCtx) -> i32 {
+    let maxlen: u32 = if ctx.thorough() { 9 } else { 7 };
+    let exhaustive: u64 = 2 * (1..=maxlen).map(|l| 5u64.pow(l)).sum::<u64>();
+    let random = ctx.n(60_000, 3_000_000);
+    let seed = ctx.seed;
+    let agg = run_parallel(ctx.prop, exhaustive + random, &ctx.known, |i| {
+        if let Some((n, ops)) = c13_decode(i, maxlen) {
+            let desc = json!({"family": "S-listener", "kind": "exhaustive", "n": n, "ops": format!("{:?}", ops), "index": i});
+            misc::c13_case(n, &ops, desc)
+        } else {
+            let mut r = Rng::new(mix(seed, i));
+            let n = 1 + r.below(3) as u32;
+            let keys = 1 + r.below(3) as u64;
+            let len = 3 + r.below(30);
+            let ops: Vec<L> = (0..len)
+                .map(|_| {
+                    let k = r.below(keys as usize) as u64;
+                    match r.below(10) {
+                        0..=3 => L::Arrive(k),
+                        4 | 5 => L::CloseOldest(k),
+                        6 => L::CloseNewest(k),
+                        _ => L::Poll,
+                    }
+                })
+                .chain(std::iter::once(L::Poll))
+                .collect();
+            let desc = json!({"family": "S-listener", "kind": "random", "n": n, "ops": format!("{:?}", ops), "index": i, "base_seed": seed});
+            misc::c13_case(n, &ops, desc)
+        }
+    });
+    let mut extra = BTreeMap::new();
+    extra.insert("exhaustive_sequences".into(), json!(exhaustive));
+    extra.insert("exhaustive_bound".into(), json!(format!("all sequences of length 1..={maxlen} over {{arrive(k), close-oldest(k), poll}} x 2 keys, n in {{1,2}}, each followed by a poll")));
+    let rep = Report {
+        level: "exploration",
+        rule: "S-listener: the real Incoming::max_channels_per_key over a scripted listener of real BaseChannels; the harness owns every yielded channel, so 'alive' is exact. Bounded-exhaustive enumeration of operation sequences plus seeded random longer sequences over 1-3 keys, n in 1..3. Non-trivial = at least one admit/shed decision was observed; distinct = distinct decision sequences (hash of arrivals, closes, polls, yields, sheds)".into(),
+        agg,
+        extra,
+        assumptions: vec!["decisions are attributed in the order in which the scripted listener handed arrivals to the limiter inside one poll".into()],
+        required_cells: vec!["C13.close-and-same-key-arrival-pending-at-one-poll".into(), "C13.shed".into(), "C13.admit".into()],
+        exhaustive: Some(true),
+    };
+    finish(ctx, rep)
+}
+
+// ------------------------------------------------------------------------------------------
+// C19: request hooks (bounded-exhaustive + random)
+
+fn c19(ctx: &RunCtx) -> i32 {
+    let depth: u32 = if ctx.thorough() { 5 } else { 4 };
+    let exhaustive: u64 = 22u64.pow(depth) * 2;
+    let random = ctx.n(60_000, 3_000_000);
+    let seed = ctx.seed;
+    let agg = run_parallel(ctx.prop, exhaustive + random, &ctx.known, |i| {
+        let mut next_id = 0u32;
+        if i < exhaustive {
+            let tree = misc::decode_tree(i, depth as usize, &mut next_id);
+            misc::c19_case(&tree, json!({"family": "S-hooks", "kind": "exhaustive", "depth": depth, "code": i}))
+        } else {
+            let mut r = Rng::new(mix(seed, i));
+            let d = 2 + r.below(7);
+            let tree = misc::random_tree(&mut r, d, &mut next_id);
+            misc::c19_case(&tree, json!({"family": "S-hooks", "kind": "random", "index": i, "base_seed": seed, "tree": format!("{:?}", tree)}))
+        }
+    });
+    let mut extra = BTreeMap::new();
+    extra.insert("exhaustive_trees".into(), json!(exhaustive));
+    extra.insert("exhaustive_bound".into(), json!(format!("all hook trees of nesting depth <= {depth} over {{before(ok|fail), after(keep|ok|err), before_and_after(ok|fail x keep|ok|err), before().then..(length 0..3, each failing position).serving}} x leaf ok/err")));
+    let rep = Report {
+        level: "exploration",
+        rule: "S-hooks: hook trees composed at run time from the real RequestHook combinators (each level is the real tarpc wrapper, type-erased by boxing its serve future) with recording hooks; a reference interpreter written from the property's sentences predicts the event sequence (hook ids, contexts seen by before-hooks, handler and the after part of before_and_after, results seen by after-hooks) and the final Result. Distinct = distinct tree shapes".into(),
+        agg,
+        extra,
+        assumptions: vec!["the context seen by a plain after-hook is not compared (the property does not constrain it)".into()],
+        required_cells: vec!["C19.failing-before-hook".into(), "C19.both-before-fails".into(), "C19.after-rewrites".into(), "C19.chain".into(), "C19.chain-length-0".into()],
+        exhaustive: Some(true),
+    };
+    finish(ctx, rep)
+}
+
+// ------------------------------------------------------------------------------------------
+// C20: stubs
+
+fn c20(ctx: &RunCtx) -> i32 {
+    let seed = ctx.seed;
+    // enumerate cases
+    #[derive(Clone)]
+    enum Case {
+        RrSeq(usize, usize),
+        RrConc(usize, usize, usize),
+        Ch(usize, usize, usize),
+        Retry(Vec<bool>, Vec<Result<u64, String>>),
+    }
+    let mut cases: Vec<Case> = vec![];
+    for nb in 1..=17usize {
+        for calls in [1usize, nb.saturating_sub(1).max(1), nb, nb + 1, 2 * nb + 1, 100, 1000] {
+            cases.push(Case::RrSeq(nb, calls));
+        }
+    }
+    if ctx.thorough() {
+        for nb in [1usize, 2, 3, 7, 16] {
+            cases.push(Case::RrSeq(nb, 100_000));
+        }
+    }
+    let conc_rounds = ctx.n(6, 60) as usize;
+    for round in 0..conc_rounds {
+        for threads in [2usize, 3, 4, 8, 16] {
+            for nb in [1usize, 2, 3, 5, 7, 16] {
+                cases.push(Case::RrConc(nb, threads, 200 + 37 * round));
+            }
+        }
+    }
+    for nb in 1..=17usize {
+        for hk in 0..6usize {
+            for set in 0..(ctx.n(3, 30) as usize) {
+                cases.push(Case::Ch(nb, hk, set));
+            }
+        }
+    }
+    // retry: every policy vector up to length 6 (ending with a decline or running out), result patterns
+    for len in 0..=6usize {
+        for bits in 0..(1u32 << len) {
+            let policy: Vec<bool> = (0..len).map(|b| bits & (1 << b) != 0).collect();
+            for pat in 0..3 {
+                let results: Vec<Result<u64, String>> = (0..=len)
+                    .map(|k| match pat {
+                        0 => Ok(100 + k as u64),
+                        1 => Err(format!("e{k}")),
+                        _ => {
+                            if k % 2 == 0 {
+                                Err(format!("e{k}"))
+                            } else {
+                                Ok(100 + k as u64)
+                            }
+                        }
+                    })
+                    .collect();
+                cases.push(Case::Retry(policy.clone(), results));
+            }
+        }
+    }
+    let cases_ref = &cases;
+    let agg = run_parallel(ctx.prop, cases.len() as u64, &ctx.known, |i| {
+        match &cases_ref[i as usize] {
+            Case::RrSeq(nb, calls) => misc::c20_round_robin_seq(*nb, *calls, json!({"family": "S-stubs", "case": "round-robin sequential", "backends": nb, "calls": calls})),
+            Case::RrConc(nb, t, m) => misc::c20_round_robin_conc(*nb, *t, *m, json!({"family": "S-stubs", "case": "round-robin concurrent", "backends": nb, "threads": t, "calls_per_thread": m})),
+            Case::Ch(nb, hk, set) => {
+                let (kind, name) = match hk {
+                    0 => (HasherKind::Random, "RandomState"),
+                    1 => (HasherKind::Const(0), "const-0"),
+                    2 => (HasherKind::Const(u64::MAX), "const-u64max"),
+                    3 => (HasherKind::Identity, "identity"),
+                    4 => (HasherKind::Fnv, "fnv"),
+                    _ => (HasherKind::Const(u64::MAX - 1), "const-u64max-1"),
+                };
+                let mut r = Rng::new(mix(seed, (*nb as u64) << 16 | (*hk as u64) << 8 | *set as u64));
+                let mut reqs: Vec<u64> = vec![0, 1, u64::MAX, u64::MAX - 1, *nb as u64, *nb as u64 - 1, (*nb as u64).wrapping_mul(u64::MAX / 3)];
+                for _ in 0..40 {
+                    reqs.push(r.next() >> r.below(64));
+                }
+                let again: Vec<u64> = reqs.clone();
+                reqs.extend(again);
+                r.shuffle(&mut reqs);
+                misc::c20_consistent_hash(*nb, kind, name, &reqs, json!({"family": "S-stubs", "case": "consistent-hash", "backends": nb, "hasher": name, "set": set, "base_seed": seed}))
+            }
+            Case::Retry(p, res) => misc::c20_retry(p, res, json!({"family": "S-stubs", "case": "retry", "policy": format!("{:?}", p), "results": format!("{:?}", res)})),
+        }
+    });
+    let rep = Report {
+        level: "exploration",
+        rule: "S-stubs: the real RoundRobin / ConsistentHash / Retry stubs over recording backends: round-robin after every prefix of sequential runs (1..17 backends, clones interleaved) and at the end of real-thread concurrent runs; consistent hash as a function into valid indices for 6 hashers including adversarial ones; retry against every boolean policy vector up to length 6 x 3 result patterns (attempt numbers, request identity by Arc pointer and value, last result returned). Distinct = distinct case parameters".into(),
+        agg,
+        extra: BTreeMap::new(),
+        assumptions: vec!["counter wrap-around (2^64 calls) is out of reach of any execution".into()],
+        required_cells: vec!["C20.rr.seq.backends1".into(), "C20.rr.seq.backends17".into(), "C20.rr.conc.threads16".into(), "C20.ch.hasher.const-u64max".into(), "C20.ch.hasher.RandomState".into(), "C20.retry.attempts1".into(), "C20.retry.attempts7".into()],
+        exhaustive: None,
+    };
+    finish(ctx, rep)
+}
+
+// ------------------------------------------------------------------------------------------
+// e2e scenarios
+
+pub fn e2e_cfg(prop: &str, i: u64, base_seed: u64) -> ECfg {
+    let seed = mix(base_seed, i.wrapping_mul(0xE2E1) ^ 0x77);
+    let mut c = ECfg::random(seed);
+    let mut r = Rng::new(seed ^ 0xD1CE);
+    // directed shapes: chains of every depth over every transport kind
+    if i < 60 || i % 25 == 0 {
+        let kinds = [Tk::Unbounded, Tk::Bounded(1), Tk::Json, Tk::Bincode];
+        c.depth = 1 + (i % 3) as usize;
+        c.transports = (0..c.depth).map(|h| kinds[((i / 3) as usize + h) % 4]).collect();
+        c.label = "directed-chain";
+        c.ncalls = 3;
+        c.max_chunk = [1usize, 3, 4096][(i % 3) as usize];
+        match prop {
+            "C04" => {
+                c.abandon_pct = 100;
+                c.deadlines = vec![Some(10_000)];
+            }
+            "C07" => {
+                c.abandon_pct = 0;
+                c.deadlines = vec![None, Some(0), Some(1), Some(1000), Some(10_000), Some(3 * 24 * 3600 * 1000), Some(3 * YEAR_MS), Some(60 * YEAR_MS)];
+                c.leaf_gate = i % 2 == 0;
+                c.real_transit = i % 5 == 0;
+            }
+            _ => {}
+        }
+        return c;
+    }
+    match prop {
+        "C04" => {
+            c.abandon_pct = *r.pick(&[50, 100]);
+            if !c.deadlines.contains(&Some(10_000)) {
+                c.deadlines.push(Some(10_000));
+            }
+        }
+        "C07" => {
+            c.abandon_pct = *r.pick(&[0, 0, 20]);
+            if r.chance(1, 2) {
+                c.transports = (0..c.depth).map(|_| *r.pick(&[Tk::Json, Tk::Bincode])).collect();
+            }
+        }
+        _ => {}
+    }
+    c
+}
+
+fn e2e_required_cells(prop: &str) -> Vec<String> {
+    let v: Vec<&str> = match prop {
+        "C04" => vec!["C04.chain.head-abandoned", "C04.chain.cascade-depth2", "C04.chain.cascade-depth3"],
+        "C07" => vec!["C07.hop1.serde", "C07.hop2.serde", "C07.hop3.serde", "C07.hop1.in-memory", "C07.hop3.in-memory", "C07.expired-on-send", "C07.real-transit-delay"],
+        "C18" => vec!["C18.cancel-observed", "e2e.depth3"],
+        _ => vec![],
+    };
+    v.into_iter().map(String::from).collect()
 }
